@@ -191,8 +191,12 @@ DEFAULT_TRANSPARENT = {
 
 
 class Origins(object):
-    def __init__(self, cfg, rd=None, transparent=None, max_depth=40):
+    def __init__(self, cfg, rd=None, transparent=None, max_depth=40,
+                 follow_new_helpers=True, _level=0):
         self.cfg = cfg
+        self._tr_arg = transparent
+        self._level = _level
+        self.follow = follow_new_helpers and _level < 3
         self.rd = rd or ReachingDefs(cfg)
         self.transparent = dict(DEFAULT_TRANSPARENT)
         if transparent:
@@ -342,8 +346,73 @@ class Origins(object):
                 for kw in c.keywords:
                     rec(kw.value)
             return
+        if self.follow and self._follow_helper(c, nid, out, seen, env, depth):
+            return
         ch = attr_chain(f)
         out.add(Atom("call", ch or unparse(f), c, nid))
+
+    def _follow_helper(self, c, nid, out, seen, env, depth):
+        """A call to a helper that does not exist in the reference tree and
+        could not be expanded inline (returns inside try/loops) is followed
+        into: the origins of its returned values, with its parameters replaced
+        by the origins of the actual arguments."""
+        fi = getattr(self.cfg, "fi", None)
+        model = getattr(self.cfg, "model", None)
+        if fi is None or model is None:
+            return False
+        from . import inline
+        ex = getattr(model, "_expander", None)
+        if ex is None:
+            ex = inline.Expander(model)
+            model._expander = ex
+        if ex.ref is None:
+            return False
+        nested = {n.name: n for n in fi.node.body
+                  if isinstance(n, ast.FunctionDef)}
+        try:
+            tgt = ex.resolve(fi, c, nested)
+        except Exception:
+            tgt = None
+        if not tgt:
+            return False
+        fn, drop_self = tgt
+        hfi = None
+        for q, cand in model.funcs.items():
+            if cand.node is fn:
+                hfi = cand
+        if hfi is None:
+            return False
+        from .cfg import cfg_of
+        hcfg = cfg_of(hfi, model)
+        horg = Origins(hcfg, transparent=self._tr_arg, _level=self._level + 1)
+        params = [a.arg for a in fn.args.args]
+        if drop_self:
+            params = params[1:]
+        actual = dict(zip(params, c.args))
+        for k in c.keywords:
+            if k.arg:
+                actual[k.arg] = k.value
+        rets = hcfg.by_kind("return")
+        if not rets:
+            return False
+        for r in rets:
+            if r.ast.value is None:
+                out.add(Atom("const", "None", None, nid))
+                continue
+            for a in horg.of(r.ast.value, r.id):
+                if a.kind == "param" and a.text in actual:
+                    self._expand(actual[a.text], nid, out, seen, env, depth + 1)
+                elif a.kind == "param" and a.text == "self":
+                    out.add(Atom("attr", "self", None, nid))
+                elif a.kind == "param":
+                    d = hfi.param_default(a.text)
+                    if d is not None:
+                        self._expand(d, nid, out, seen, env, depth + 1)
+                    else:
+                        out.add(a)
+                else:
+                    out.add(a)
+        return True
 
 
 def self_attr_assignments(model, cls_qual, attr, include_subclasses=True):
